@@ -2,7 +2,7 @@
 EXTENDS InlineDepth
 N == Bound + 3
 (* the guarded paths, pools with at least one thread: bounded for every chain length *)
-CfgGuarded == {[kind |-> k, nw |-> nw, n |-> n] : k \in {"pool", "ts", "cts", "pipe", "graph"}, nw \in 1 .. 2, n \in 1 .. N}
+CfgGuarded == {[kind |-> k, nw |-> nw, n |-> n] : k \in {"pool", "ts", "cts", "pipe", "pipeexc", "graph"}, nw \in 1 .. 2, n \in 1 .. N}
               \cup {[kind |-> "graph", nw |-> 0, n |-> n] : n \in 1 .. N}
 (* open findings: continuation chains (completion path on the ImmediateInvoker, wait path from the  *)
 (* tail) and every schedule path on a pool with zero threads nest once per link                     *)
